@@ -71,6 +71,8 @@ def build_w(case):
     n = nx * ny
     rng = np.random.default_rng([int(case["wseed"]), 1101])
     kind = case["wkind"]
+    if kind == "explicit":
+        return np.array(case["W"], dtype=float).reshape(m, n)
     if kind == "dense":
         W = rng.random((m, n))
     elif kind == "sparse":
@@ -133,6 +135,8 @@ def build_b(case, W):
     m = W.shape[0]
     xt, rng = build_xtrue(case)
     kind = case["bkind"]
+    if kind == "explicit":
+        return np.array(case["b"], dtype=float).reshape(m), xt
     if kind == "zero":
         return np.zeros(m), xt
     bc = np.dot(W, xt)
